@@ -55,3 +55,25 @@ Example C23_example :
   | Ok r => (map pamt (all_postings r), rbal r, effect "a" "USD" (all_postings r)) | _ => ([], [], 0) end
   = ([30; 35], [(("a", "USD"), -15)], -5).
 Proof. vm_compute. reflexivity. Qed.
+
+(* ---------- the same of the compiled program on the bytecode VM (Machine/RunCorrect.v: vm_run = Sem.run) ---------- *)
+From LV Require Import Machine.Vm Machine.Compile Machine.VmRun Machine.RunCorrect.
+Theorem C23_machine_bound : forall p given s vr, vm_run p given s = Ok vr ->
+  exists e, forall k B v, fst k <> "world" -> 0 <= B -> Forall (stmt_bound k e B) (pstmts p) ->
+    bget (vr_init vr) k = Some v -> Z.min v (- B) <= v + effect (fst k) (snd k) (vr_posts vr).
+Proof. exact vm_bounded. Qed.
+Print Assumptions C23_machine_bound.
+
+Theorem C23_machine_no_overdraft : forall p given s vr, vm_run p given s = Ok vr -> forallb stmt_no_overdraft (pstmts p) = true ->
+  forall k v, fst k <> "world" -> bget (vr_init vr) k = Some v -> Z.min v 0 <= v + effect (fst k) (snd k) (vr_posts vr).
+Proof. exact vm_no_overdraft. Qed.
+Print Assumptions C23_machine_no_overdraft.
+
+Example C23_machine_example :
+  let p := {| pvars := [];
+              pstmts := [ Send (MonLit (AssetLit "USD") 30) (VSrc (SAccount (AccLit "world") OdNone)) (DAccount (AccLit "a"));
+                          Send (MonLit (AssetLit "USD") 35) (VSrc (SAccount (AccLit "a") (OdUpTo (MonLit (AssetLit "USD") 20)))) (DAccount (AccLit "b")) ] |} in
+  match vm_run p [] {| st_bal := [(("a", "USD"), -10)]; st_meta := [] |} with
+  | Ok vr => (map pamt (vr_posts vr), vr_bal vr, effect "a" "USD" (vr_posts vr)) | _ => ([], [], 0) end
+  = ([30; 35], [(("a", "USD"), -15)], -5).
+Proof. vm_compute. reflexivity. Qed.
